@@ -1,6 +1,9 @@
 /-
   C12 — Building then loading a header preserves its tags and is spec-well-formed.
 -/
+import Mb2.Props.FnsBoxedCtor
+import Mb2.Props.FnsBoxed
+import Mb2.Props.FnsCast
 import Mb2.Props.Builders
 import Mb2.Build
 import Mb2.Props.C06
